@@ -70,6 +70,8 @@ def gen_case(rng, tier, idx):
     sc = S.gen_scenario(rng)
     k = rng.randint(2, 4)
     envs = [rng.choice(ENVS) for _ in range(k)]
+    if sc['component'] in ('bpi', 'ga') and 'reuse' not in envs:
+        envs.append('reuse')
     if not S.reusable(sc['component']):
         envs = [e if e != 'reuse' else 'prior' for e in envs]
     if _twin_problem(sc) is None:
@@ -394,7 +396,8 @@ def execute(case, script=None):
             elif envname == 'reuse':
                 gset(8)
                 sched.fire('F5_object_reuse')
-                sc2 = dict(sc, problem=S.other_problem(sc))
+                # the object's first use is on another problem, or (every other time) on this very scenario: train / plan twice
+                sc2 = dict(sc, problem=S.other_problem(sc)) if prng.randrange(2) else sc
                 try:
                     _, algo, _ = _run(sc2, ctx, sched)
                 except Violation:
